@@ -1,7 +1,7 @@
 """Per-property checks.  Each returns the process exit code (0 ok, 1 violation, 2 machinery broken)."""
 import os, sys, json, time, traceback
 from .core import (ModelError, Verdict, build_driver, run_tlc, SPEC, VERIF)
-from . import parsecheck, apicheck, printcheck, lexcheck, stress, numcheck
+from . import parsecheck, apicheck, printcheck, lexcheck, stress, numcheck, pathcheck
 
 
 def seed_of():
@@ -88,6 +88,11 @@ def check_C14(tier, seed):
         res = tlc_parse(v, c, INV_CB)
         parsecheck.replay(v, exe, res, aspects={"tree", "tree_rejected", "diag", "cb"}, seed=seed,
                           renderings=("canonical",), tag="C14")
+    # the pre-set validation callback of the by-name setters: veto and rewrite
+    for c in ["api_veto2_quick.cfg", "api_rewrite_quick.cfg", "api_rewrite2_quick.cfg"]:
+        res = tlc_api(v, c)
+        res.behaviours = [b for b in res.behaviours if b["calls"][-1]["call"]["name"] in ("vi", "vs", "vf")]
+        apicheck.replay(v, exe, res, aspects={"tree", "cb", "noeffect"}, seed=seed, tag="C14", sigprefix="api")
     v.cov["exhaustive"] = True
     return v.finish(rule="every token sequence up to the configured length over a schema whose scalar, list, section and function "
                          "options carry value-parsing / validation / function callbacks, for every choice of the failing invocation "
@@ -233,7 +238,27 @@ def check_C04(tier, seed):
                          "DBL_MAX; each through the parser, cfg_setopt and cfg_setmulti with ambient errno in {0, ERANGE, EINVAL}; non-trivial = accepted numerals")
 
 
-CHECKS = {"C04": check_C04, "C02": check_C02, "C03": check_C03, "C05": check_C05, "C19": check_C19, "C09": check_C09, "C10": check_C10, "C14": check_C14, "C07": check_C07, "C12": check_C12, "C01": check_C01, "C06": check_C06, "C15": check_C15}
+INV_PATH = ["P_C11_Agree", "P_C11_GoodResolve", "P_C11_FirstInstance"]
+
+
+def check_C11(tier, seed):
+    v = Verdict("C11", tier, seed)
+    exe = build_driver("asan")
+    res = run_tlc("MC_Path.tla", os.path.join("mc", "path_tree.cfg"))
+    v.add_tlc("path_tree.cfg", res, INV_PATH)
+    pathcheck.replay(v, exe, res, seed=seed, tag="C11", mutate=True)
+    res = run_tlc("MC_Path.tla", os.path.join("mc", "path_enum_quick.cfg"))
+    v.add_tlc("path_enum_quick.cfg", res, INV_PATH)
+    pathcheck.replay(v, exe, res, seed=seed, tag="C11")
+    v.cov["exhaustive"] = True
+    return v.finish(rule="(a) every path enumerated from a four-level tree (every option x qualifier form: unqualified, =index, =title, ='quoted' "
+                         "with escapes) and its systematic breakages (dropped / duplicated separators and quotes, stray '|' or '=' at either end, "
+                         "bad index, unknown title, unbalanced quoting), each also through cfg_setstr and cfg_rmsec on a fresh context; "
+                         "(b) every byte string up to the length bound over {s m t c | = ' \\ 0 1 9 a b}; cfg_getopt / cfg_getsec results are "
+                         "located in the tree by pointer identity and compared with the stepwise location the specification computes")
+
+
+CHECKS = {"C11": check_C11, "C04": check_C04, "C02": check_C02, "C03": check_C03, "C05": check_C05, "C19": check_C19, "C09": check_C09, "C10": check_C10, "C14": check_C14, "C07": check_C07, "C12": check_C12, "C01": check_C01, "C06": check_C06, "C15": check_C15}
 
 
 def main(argv):
